@@ -395,7 +395,7 @@ def rule_fresh_vm_pointer_cleared(ctx, rep, rid: str) -> None:
                 continue  # reported below as a cached interpreter
             n_pub += 1
             # values that put the pointer back: None, or a local saved from the pointer before it was set
-            saved = {x.targets[0].id for x in m.own_nodes() if isinstance(x, ast.Assign) and len(x.targets) == 1 and isinstance(x.targets[0], ast.Name) and norm(x.value) == f"self.{attr}" and x.lineno < a.lineno}
+            saved = {x.targets[0].id for x in m.own_nodes() if isinstance(x, ast.Assign) and len(x.targets) == 1 and isinstance(x.targets[0], ast.Name) and norm(x.value) == f"self.{attr}" and x.lineno <= a.lineno and x is not a}
             clear = {n.id for n in cfg.nodes if isinstance(n.ast, ast.Assign) and any(norm(tg) == f"self.{attr}" for tg in n.ast.targets) and ((isinstance(n.ast.value, ast.Constant) and n.ast.value.value is None) or (isinstance(n.ast.value, ast.Name) and n.ast.value.id in saved))}
             an = next((n for n in cfg.nodes if n.ast is a), None)
             if an is None:
